@@ -555,6 +555,35 @@ theorem accepted_refusal (cfg : Cfg) (raises ok : Bool) (content : Bytes) (fs0 :
     have := (accepted_failure_reported cfg raises content fs0 e t m h).1
     rw [hunp] at this; cases this
 
+/-- **No-clobber publication is a link, whatever happened before it** (round 5).  In an accepted trace of a save with
+    `overwrite=False` that IS published: the publishing event is the `link` - never a `rename` / `replace`, not even as a
+    fall-back after an earlier attempt failed ("no hard links here: check, then rename" leaves a window one call wide) -,
+    the destination did not exist at entry, no other process created it at ANY point of the schedule, the block did not
+    raise and no listed step - in particular no earlier attempt to publish, whatever its errno - reported an error before it -/
+theorem accepted_noclobber_publication_is_link (cfg : Cfg) (raises ok : Bool) (content : Bytes) (fs0 : FS) (e : Nat)
+    (t : List Obs) (m : M) (h : Observed cfg raises ok content fs0 e t m) (how : cfg.overwrite = false)
+    (hpub : publishes (oks t) = true) :
+    Ev.linkPartDest ∈ oks t ∧ Ev.renamePartDest ∉ oks t ∧ fs0.dir.dest = none ∧ m.envDone = false ∧
+    failedBefore t = false ∧ raises = false := by
+  obtain ⟨a, ha, hend, r, htr, hp⟩ := h.rj
+  have hnr : Ev.renamePartDest ∉ oks t := by rw [← htr]; exact r.norename how
+  have hl : Ev.linkPartDest ∈ oks t := by
+    rcases publishes_mem _ hpub with hm | hm
+    · exact absurd hm hnr
+    · exact hm
+  have hl' : Ev.linkPartDest ∈ m.tr := by rw [htr]; exact hl
+  refine ⟨hl, hnr, r.linked hl', r.j.lenv hl', ?_, ?_⟩
+  · cases hf : failedBefore t with
+    | false => rfl
+    | true =>
+      have := (accepted_trigger_unpublished cfg raises ok content fs0 e t m h (Or.inr hf)).1
+      rw [hpub] at this; cases this
+  · cases hr : raises with
+    | false => rfl
+    | true =>
+      have := (accepted_trigger_unpublished cfg raises ok content fs0 e t m h (Or.inl hr)).1
+      rw [hpub] at this; cases this
+
 /-- **Cleanup**: after an accepted failed save with `rm_part_on_exc`, unless the plan made an unlink of
     the part file fail, either no part file is left, or this save never created one (inode table
     untouched, the part name as at the start - or removed by `overwrite_part`) -/
@@ -1027,6 +1056,36 @@ example : Accept {} false true [78, 69, 87] 0o022 (some 0o600) obsOtherOrder = f
 example : Accept { overwrite := false } false false [78] 0o022 none
     [.ok .noop, .ok (.openPart true true 0o666), .ok .noop, .ok (.write [78] 0), .ok .flush, .ok .fsync, .ok .close,
      .appear, .fail true false false, .ok .unlinkPart] = true := by decide
+
+-- (round 5) `overwrite=False`, the publishing `os.link` reports "no hard links here" (EPERM / ENOTSUP / ENOSYS - an errno is an
+-- opaque number for the model), and the code falls back on "check, then rename": `obsFallback w` is what a recorder sees when
+-- the other process creates the destination in the window `w` calls after the failed link (the check itself is a probe)
+def obsLinkFails : List Obs :=
+  [.fail false false false, .ok (.openPart true true 0o666), .ok .noop, .ok (.write [78] 0), .ok .flush, .ok .fsync, .ok .close,
+   .fail true true false]
+def obsFallback (appearFirst : Bool) : List Obs :=
+  obsLinkFails ++ (if appearFirst then [.ok .noop, .appear, .ok .renamePartDest] else [.ok .noop, .ok .renamePartDest])
+-- the abstract file system EXECUTES the schedule with the interference - the other process's file (inode `envIno`, bytes
+-- `envInode`) is replaced by the block's bytes and the caller sees no exception: the clobbering is real ...
+example : ((replay (M.start fsNew 0) (obsFallback true)).map fun m => (m.fs.readDest, m.envDone)) = some (some [78], true) := by decide
+-- ... and `Accept` refuses the trace, with or without the interference, at the rename (observation 9 / 10); so does it when
+-- the caller is told (ok = false)
+example : Accept { overwrite := false } false true [78] 0o022 none (obsFallback true) = false ∧
+    Accept { overwrite := false } false true [78] 0o022 none (obsFallback false) = false ∧
+    Accept { overwrite := false } false false [78] 0o022 none (obsFallback true) = false ∧
+    stuckAt { overwrite := false } false A.init (obsFallback true) 0 = some 10 ∧
+    stuckAt { overwrite := false } false A.init (obsFallback false) 0 = some 9 := by decide
+-- what the code must do instead: clean up and raise; the destination appearing at any boundary after the failed link changes nothing
+example : Accept { overwrite := false } false false [78] 0o022 none (obsLinkFails ++ [.ok .unlinkPart]) = true ∧
+    Accept { overwrite := false } false false [78] 0o022 none (obsLinkFails ++ [.appear, .ok .unlinkPart]) = true ∧
+    Accept { overwrite := false } false false [78] 0o022 none (obsLinkFails ++ [.ok .unlinkPart, .appear]) = true ∧
+    ((replay (M.start fsNew 0) (obsLinkFails ++ [.appear, .ok .unlinkPart])).map fun m => (m.fs.readDest, m.fs.dir.part)) =
+      some (some envBytes, none) := by decide
+-- non-vacuity of `accepted_noclobber_publication_is_link`: the ordinary completed no-clobber save (link, unlink)
+example : Accept { overwrite := false } false true [78] 0o022 none
+      (obsLinkFails.take 7 ++ [.ok .linkPartDest, .ok .unlinkPart]) = true ∧
+    (replay (M.start fsNew 0) (obsLinkFails.take 7 ++ [.ok .linkPartDest, .ok .unlinkPart])).isSome = true ∧
+    publishes (oks (obsLinkFails.take 7 ++ [.ok .linkPartDest, .ok .unlinkPart])) = true := by decide
 
 -- the raw records of the run in which fsync fails classify to `obsFsyncFails`
 example : (rawFsyncFails.flatMap classify).map Prod.fst = obsFsyncFails := by decide
